@@ -157,14 +157,14 @@ def run_property(prop, tier, seed=0, only=None, jobs=None, verbose=True):
                     # model-level only: never an alarm; block and continue (DESIGN 2.4)
                     rec["spurious"].append({"args": args, "detail": rp.get("detail")})
                     job.q.setdefault("block_args", []).append(args)
-                    blk = " and ".join("%s == %r" % (k, v) for k, v in args.items())
+                    blk = " and ".join("%s == %r" % (k, v) for k, v in h.decode_args(args).items())
                     job.q["blocks"].append(blk or "True")
                 else:
                     hit = None
                     for e in known:
                         if e.get("query") and not job.q["id"].startswith(e["query"]):
                             continue
-                        if h.match_expr(e["match"], args, job.q["sel"], mod):
+                        if h.match_expr(e["match"], h.decode_args(args), job.q["sel"], mod):
                             hit = e
                             break
                     if hit is None:
